@@ -733,8 +733,13 @@ func runC04(args []string) int {
 	for tries := 0; len(large) < nLarge*o.boost && tries < 60*nLarge*o.boost; tries++ {
 		// streams crossing the decoder's 4096-byte buffer (the generator's rare zero-size fields make long streams fail more often: retry)
 		f := c04SmallStream(c.rg, st, 300+c.rg.intn(900))
-		if dc, _ := c04Decode(f.Data, nil); dc != 0 || len(f.Data) < 4200 {
+		if len(f.Data) < 4200 {
 			continue
+		}
+		dc, _ := c04Decode(f.Data, nil)
+		ic, _ := c04Integrity(f.Data, false, nil)
+		if dc == 1 && ic == 0 {
+			continue // a generator accident (zero-size field): framing intact, records rejected
 		}
 		ok, err := c.checkAccept(f, false)
 		if err != nil {
